@@ -8,9 +8,10 @@ prefixes of every length and ports.
 -/
 import Nebula.Lemmas.CalcRemote
 import Nebula.Lemmas.CalcRemoteTie
+import Nebula.Lemmas.CalcRemoteCfg
 
 namespace Nebula.Props.C48
-open Nebula.CalcRemote Nebula.Spec.CalcRemote Nebula.Net Nebula.Lemmas.CalcRemote
+open Nebula.CalcRemote Nebula.Spec.CalcRemote Nebula.Net Nebula.Lemmas.CalcRemote Nebula.Lemmas.CalcRemoteCfg
 
 /-- `newCalculatedRemote` accepts exactly: mask of the same family as the range, port in `0..65535`;
 and then stores the mask prefix, its masked form and the port. -/
@@ -228,5 +229,237 @@ example : TableOK [(⟨⟨.v4, 0x0a000a00⟩, 24⟩,
 example : ∃ out, addCalculatedRemotes ⟨⟨.v4, 0x0a000000⟩, 8⟩ (some [(⟨⟨.v4, 0x0a000a00⟩, 24⟩,
     [{ ipNet := ⟨⟨.v4, 0xc0a80100⟩, 24⟩, mask := ⟨⟨.v4, 0xc0a80100⟩, 24⟩, port := 4242 }])])
     ⟨.v4, 0x0a000a7b⟩ = .ok out ∧ out.v4 = [(0xc0a8017b, 4242)] := ⟨_, rfl, by decide⟩
+
+/-! ### configuration → table → reload → addCalculatedRemotes -/
+
+/-- `NewCalculatedRemotesFromConfig` succeeds exactly on configurations (specification `cfgRanges`: key absent, or a
+map whose keys denote prefixes and whose values are lists of {mask: prefix of the range's family, port: integer or
+decimal string in 0..65535}); every other shape (non-map, bad CIDR, non-list, non-map element, missing / non-string /
+unparsable mask, missing / wrongly typed / non-numeric / out-of-range port, mask of the other family) is an error. -/
+theorem fromConfig_accepts_exactly (c : CfgV) : (∃ t, fromConfig c = .ok t) ↔ cfgValid c = true :=
+  fromConfig_ok_iff c
+
+/-- … and without the key the result is the nil table, with an empty map the empty (non-nil) table. -/
+theorem fromConfig_absent_nil : fromConfig .absent = .ok none ∧ fromConfig (.map []) = .ok (some []) := ⟨rfl, rfl⟩
+
+/-- Every table `NewCalculatedRemotesFromConfig` returns satisfies the hypothesis `TableOK` of the
+`addCalculatedRemotes` theorems. -/
+theorem fromConfig_tableOK (c : CfgV) (t : Table) (h : fromConfig c = .ok (some t)) : TableOK t := by
+  intro p crs hm cr hcr
+  obtain ⟨cidr, es, rfl, rfl, hes⟩ := fromConfig_rows c t h p crs hm
+  obtain ⟨e, he, rfl⟩ := List.mem_map.mp hcr
+  obtain ⟨_, _, hok, hfam, hport⟩ := hes e he
+  simp only [pfxOK, Bool.and_eq_true, decide_eq_true_eq] at hok
+  refine ⟨e.mask, (e.port : Int), ⟨hok.1, hok.2⟩, ?_⟩
+  rw [new_eq]
+  have hf : e.mask.addr.fam = cidr.masked.addr.fam := by rw [hfam]; rfl
+  have h1 : (e.port : Int) ≤ 65535 := by omega
+  simp [hf, h1, crOfEntry]
+
+/-- One step of the `lighthouse.calculated_remotes` block of `LightHouse.reload`, when the new value is rejected:
+the table in force is untouched, whether on a reload (error logged) or — `HasChanged` false — not even looked at;
+on the initial load the error is fatal (no lighthouse is returned). -/
+theorem reload_error_keeps_previous (s : LHState) (c : CfgV) (e : Unit) (h : fromConfig c = .error e) :
+    (cfgStep false s c).1.tbl = s.tbl ∧
+    ((cfgStep false s c).2 = .errReload ∨ (cfgStep false s c).2 = .unchanged) ∧
+    (cfgStep true s c).2 = .errInitial ∧
+    ∀ s', (cfgRun1 s' (.load c)).1 = none := by
+  refine ⟨?_, ?_, ?_, ?_⟩
+  · simp only [cfgStep, Bool.false_or]; split <;> simp [h]
+  · simp only [cfgStep, Bool.false_or]; split <;> simp [h]
+  · simp [cfgStep, h]
+  · intro s'; simp [cfgRun1, cfgStep, h]
+
+/-- … and a reload whose value is a configuration and differs from the previously loaded value installs exactly
+its table. -/
+theorem reload_changed_installs (s : LHState) (c : CfgV) (t : Option Table) (h : fromConfig c = .ok t)
+    (hne : s.prev ≠ c) : (cfgStep false s c).1.tbl = t ∧ (cfgStep false s c).2 = .stored := by
+  have : hasChanged s.prev c = true := by simp [hasChanged, hne]
+  simp [cfgStep, this, h]
+
+/-- FULL statement (false for the code as it is, see `reload_installs_configured_full_false`): over every history of
+(re)starts and reloads, if a lighthouse exists the table in force is exactly the table of the configuration in force.
+
+Proved part: the same over every history in which every reload REACHES the `lighthouse.calculated_remotes` block
+(`CfgOp.reachesBlock`: no earlier block of `LightHouse.reload` — advertise_addrs, remote_allow_list, local_allow_list
+— returns an error), values valid or not, changed or not: if a lighthouse exists, a configuration is in force (the
+LAST value that was a configuration since the last start) and the table in force is exactly the table
+`NewCalculatedRemotesFromConfig` builds for it; if none exists, none is in force. -/
+theorem reload_installs_configured_partial (ops : List CfgOp) (hreach : ∀ op ∈ ops, op.reachesBlock = true) :
+    match cfgRun none ops, inForce none ops with
+    | some st, some cfg => fromConfig cfg = .ok st.tbl
+    | none, none => True
+    | _, _ => False := by
+  have := inv_run ops none none trivial hreach
+  unfold Nebula.Lemmas.CalcRemoteCfg.Inv at this
+  split <;> simp_all
+
+/-- Witness that the full statement fails (known finding `stale-after-failed-reload`): start with section S1; a
+reload carrying section S2 fails in an EARLIER block of `LightHouse.reload` (e.g. an invalid
+lighthouse.remote_allow_list), so S2 is not installed — but `config.C` now remembers S2 as the old value; the
+corrected reload (same S2, the other section repaired) finds `HasChanged("lighthouse.calculated_remotes")` false and
+skips the block: the configuration in force is S2, the table is still S1's. -/
+theorem reload_installs_configured_full_false :
+    let s1 : CfgV := .map [(.ok ⟨⟨.v4, 0x0a801400⟩, 24⟩, .list [.entry (.str (.ok ⟨⟨.v4, 0xac100500⟩, 24⟩)) (.int 4300)])]
+    let s2 : CfgV := .map [(.ok ⟨⟨.v4, 0x0a801e00⟩, 24⟩, .list [.entry (.str (.ok ⟨⟨.v4, 0xac100600⟩, 24⟩)) (.int 4301)])]
+    let ops := [CfgOp.load s1, .reloadEarlierErr s2, .reload s2]
+    ∃ st, cfgRun none ops = some st ∧ inForce none ops = some s2 ∧ fromConfig s1 = .ok st.tbl ∧
+      fromConfig s2 ≠ .ok st.tbl ∧
+      -- a remote is produced for an address of the removed range, none for the configured one
+      addCalculatedRemotes ⟨⟨.v4, 0x64400000⟩, 10⟩ st.tbl ⟨.v4, 0x0a801463⟩ =
+        .ok { added := true, v4 := [(0xac100563, 4300)], v6 := [] } ∧
+      addCalculatedRemotes ⟨⟨.v4, 0x64400000⟩, 10⟩ st.tbl ⟨.v4, 0x0a801e63⟩ =
+        .ok { added := false, v4 := [], v6 := [] } := by
+  refine ⟨_, rfl, by decide, rfl, ?_, by decide, by decide⟩
+  intro h
+  injection h with h
+  injection h with h
+  revert h
+  decide
+
+/-- In particular: when the configuration in force has no `lighthouse.calculated_remotes`, the table is nil. -/
+theorem reload_without_key_clears (ops : List CfgOp) (hreach : ∀ op ∈ ops, op.reachesBlock = true)
+    (st : LHState) (h : cfgRun none ops = some st)
+    (hf : inForce none ops = some .absent) : st.tbl = none := by
+  have := reload_installs_configured_partial ops hreach
+  rw [h, hf] at this
+  simp only [fromConfig] at this
+  injection this with h'
+  exact h'.symm
+
+/-- `addCalculatedRemotes` returns true only when the longest matching range has at least one remote. -/
+theorem add_added_imp (myNet : Prefix) (tbl : Table) (a : Addr) (out : AddOut)
+    (h : addCalculatedRemotes myNet (some tbl) a = .ok out) (hadd : out.added = true) :
+    ∃ p crs c, (p, crs) ∈ tbl ∧ c ∈ crs ∧ p.contains a = true := by
+  unfold addCalculatedRemotes at h
+  simp only at h
+  cases hl : lpm tbl a with
+  | none => rw [hl] at h; cases h; cases hadd
+  | some crs =>
+    obtain ⟨p, hmem, hcont⟩ := lpm_mem tbl a crs hl
+    cases crs with
+    | nil =>
+      rw [hl] at h
+      simp only [List.map_nil, resList] at h
+      split at h <;> (cases h; cases hadd)
+    | cons c rest => exact ⟨p, c :: rest, c, hmem, by simp, hcont⟩
+
+/-- The property over histories (FULL statement: without `hreach`; false for the code as it is by
+`reload_installs_configured_full_false`, whose last two conjuncts are a stale and a missing remote).  Proved part:
+for every history of loads / reloads of `lighthouse.calculated_remotes` in which every reload reaches the block and
+that leaves a lighthouse, and every overlay address: `addCalculatedRemotes` does not panic, and every remote it stores is
+the splice (`Entry.produce`: top bits of the entry's mask address, remaining bits of the overlay address, the
+entry's port) of an entry OF THE CONFIGURATION IN FORCE whose range contains the address, all of one family; if that
+configuration has no entry whose range contains the address — in particular when it has no
+`lighthouse.calculated_remotes` any more — nothing is stored and it returns false. -/
+theorem history_remotes_from_config_in_force_partial (myNet : Prefix) (ops : List CfgOp)
+    (hreach : ∀ op ∈ ops, op.reachesBlock = true) (st : LHState) (a : Addr)
+    (hrun : cfgRun none ops = some st) (ha : a.WF) :
+    ∃ cfg out, inForce none ops = some cfg ∧ addCalculatedRemotes myNet st.tbl a = .ok out ∧
+      (∀ r ∈ out.v4, ∃ e ∈ cfgEntries cfg, e.appliesTo a = true ∧ a.fam = .v4 ∧ r = e.produce a) ∧
+      (∀ r ∈ out.v6, ∃ e ∈ cfgEntries cfg, e.appliesTo a = true ∧ a.fam = .v6 ∧
+          r.1 < 2 ^ 64 ∧ r.2.1 < 2 ^ 64 ∧ (r.1 * 2 ^ 64 + r.2.1, r.2.2) = e.produce a) ∧
+      ((∀ e ∈ cfgEntries cfg, e.cidr.contains a = false) → out = { added := false, v4 := [], v6 := [] }) := by
+  have hinv := reload_installs_configured_partial ops hreach
+  rw [hrun] at hinv
+  cases hf : inForce none ops with
+  | none => rw [hf] at hinv; exact hinv.elim
+  | some cfg =>
+    rw [hf] at hinv
+    simp only at hinv
+    refine ⟨cfg, ?_⟩
+    cases ht : st.tbl with
+    | none =>
+      refine ⟨{ added := false, v4 := [], v6 := [] }, rfl, by simp [addCalculatedRemotes], by simp, by simp, fun _ => rfl⟩
+    | some tbl =>
+      rw [ht] at hinv
+      have hok := fromConfig_tableOK cfg tbl hinv
+      -- every row of the table is a range of the configuration in force
+      have hrow : ∀ p crs c, (p, crs) ∈ tbl → c ∈ crs → p.contains a = true →
+          ∃ e ∈ cfgEntries cfg, e.cidr.contains a = true ∧ c.ipNet = e.mask ∧ c.port = e.port ∧
+            e.mask.addr.fam = e.cidr.addr.fam := by
+        intro p crs c hm hc hcont
+        obtain ⟨cidr, es, rfl, rfl, hes⟩ := fromConfig_rows cfg tbl hinv p crs hm
+        obtain ⟨e, he, rfl⟩ := List.mem_map.mp hc
+        obtain ⟨hent, hcidr, _, hfam, _⟩ := hes e he
+        rw [masked_contains] at hcont
+        exact ⟨e, hent, by rw [hcidr]; exact hcont, rfl, rfl, by rw [hcidr]; exact hfam⟩
+      obtain ⟨out, hout, h4, h6⟩ := add_only_in_range myNet tbl a hok ha
+      refine ⟨out, rfl, hout, ?_, ?_, ?_⟩
+      · intro r hr
+        obtain ⟨p, crs, c, hm, hc, hcont, hpf, hcf, haf, rfl⟩ := h4 r hr
+        obtain ⟨e, hent, hec, e1, e2, e3⟩ := hrow p crs c hm hc hcont
+        refine ⟨e, hent, ?_, haf, ?_⟩
+        · have : e.mask.addr.fam = a.fam := by rw [← e1, hcf, haf]
+          simp only [Entry.appliesTo, hec, this, haf, Bool.true_and]; rfl
+        · simp [Entry.produce, haf, Fam.bits, e1, e2]
+      · intro r hr
+        obtain ⟨p, crs, c, hm, hc, hcont, hpf, hcf, haf, hhi, hlo, hsp, hpt⟩ := h6 r hr
+        obtain ⟨e, hent, hec, e1, e2, e3⟩ := hrow p crs c hm hc hcont
+        refine ⟨e, hent, ?_, haf, hhi, hlo, ?_⟩
+        · have : e.mask.addr.fam = a.fam := by rw [← e1, hcf, haf]
+          simp only [Entry.appliesTo, hec, this, haf, Bool.true_and]; rfl
+        · simp [Entry.produce, haf, Fam.bits, hsp, hpt, e1, e2]
+      · intro hnone
+        have hv4 : out.v4 = [] := by
+          apply List.eq_nil_iff_forall_not_mem.mpr
+          intro r hr
+          obtain ⟨p, crs, c, hm, hc, hcont, _⟩ := h4 r hr
+          obtain ⟨e, hent, hec, _⟩ := hrow p crs c hm hc hcont
+          rw [hnone e hent] at hec; cases hec
+        have hv6 : out.v6 = [] := by
+          apply List.eq_nil_iff_forall_not_mem.mpr
+          intro r hr
+          obtain ⟨p, crs, c, hm, hc, hcont, _⟩ := h6 r hr
+          obtain ⟨e, hent, hec, _⟩ := hrow p crs c hm hc hcont
+          rw [hnone e hent] at hec; cases hec
+        have hadd : out.added = false := by
+          cases hadd : out.added with
+          | false => rfl
+          | true =>
+            obtain ⟨p, crs, c, hm, hc, hcont⟩ := add_added_imp myNet tbl a out hout hadd
+            obtain ⟨e, hent, hec, _⟩ := hrow p crs c hm hc hcont
+            rw [hnone e hent] at hec; cases hec
+        cases out
+        simp_all
+
+-- non-vacuity.  The sample section `10.128.20.0/24: [{mask: 172.16.5.0/24, port: 4300}]`:
+-- it is a configuration, its table has that one row, …
+example : fromConfig (.map [(.ok ⟨⟨.v4, 0x0a801400⟩, 24⟩,
+      .list [.entry (.str (.ok ⟨⟨.v4, 0xac100500⟩, 24⟩)) (.int 4300)])]) =
+    .ok (some [(⟨⟨.v4, 0x0a801400⟩, 24⟩,
+      [{ ipNet := ⟨⟨.v4, 0xac100500⟩, 24⟩, mask := ⟨⟨.v4, 0xac100500⟩, 24⟩, port := 4300 }])]) := by rfl
+
+-- … each invalid shape is rejected (non-map; bad CIDR; non-list; port out of range; mask of the other family), …
+example : fromConfig (.nonMap 0) = .error () ∧
+    fromConfig (.map [(.bad 0, .list [])]) = .error () ∧
+    fromConfig (.map [(.ok ⟨⟨.v4, 0x0a801400⟩, 24⟩, .nonList 2)]) = .error () ∧
+    fromConfig (.map [(.ok ⟨⟨.v4, 0x0a801400⟩, 24⟩,
+      .list [.entry (.str (.ok ⟨⟨.v4, 0xac100500⟩, 24⟩)) (.int 70000)])]) = .error () ∧
+    fromConfig (.map [(.ok ⟨⟨.v4, 0x0a801400⟩, 24⟩,
+      .list [.entry (.str (.ok ⟨⟨.v6, 0⟩, 24⟩)) (.str 4300)])]) = .error () := ⟨rfl, rfl, rfl, rfl, rfl⟩
+
+-- … and the remove-the-key history (seed C48-4): load the section, probe 10.128.20.99 → 172.16.5.99:4300; reload
+-- without the key → the table is nil, nothing in force contains the address, nothing is produced.
+example :
+    let sec : CfgV := .map [(.ok ⟨⟨.v4, 0x0a801400⟩, 24⟩,
+      .list [.entry (.str (.ok ⟨⟨.v4, 0xac100500⟩, 24⟩)) (.int 4300)])]
+    let my : Prefix := ⟨⟨.v4, 0x64400000⟩, 10⟩
+    let a : Addr := ⟨.v4, 0x0a801463⟩
+    (∃ st, cfgRun none [.load sec] = some st ∧ inForce none [.load sec] = some sec ∧
+      addCalculatedRemotes my st.tbl a = .ok { added := true, v4 := [(0xac100563, 4300)], v6 := [] }) ∧
+    (∃ st, cfgRun none [.load sec, .reload .absent] = some st ∧ st.tbl = none ∧
+      inForce none [.load sec, .reload .absent] = some .absent ∧ cfgEntries .absent = [] ∧
+      addCalculatedRemotes my st.tbl a = .ok { added := false, v4 := [], v6 := [] }) ∧
+    -- an invalid reload keeps the section in force, the same invalid text again is `unchanged`
+    (∃ st, cfgRun none [.load sec, .reload (.nonMap 1), .reload (.nonMap 1)] = some st ∧
+      inForce none [.load sec, .reload (.nonMap 1), .reload (.nonMap 1)] = some sec ∧
+      (cfgStep false st (.nonMap 1)).2 = .unchanged ∧ (cfgStep false st (.nonMap 2)).2 = .errReload) ∧
+    -- an invalid initial load leaves no lighthouse
+    cfgRun none [.load (.nonMap 0), .reload sec] = none ∧
+    -- these histories satisfy the hypothesis of the `_partial` theorems
+    (∀ op ∈ [CfgOp.load sec, .reload .absent, .reload (.nonMap 1)], op.reachesBlock = true) := by
+  refine ⟨⟨_, rfl, by decide, by decide⟩, ⟨_, rfl, by decide, by decide, by decide, by decide⟩,
+    ⟨_, rfl, by decide, by decide, by decide⟩, by decide, by decide⟩
 
 end Nebula.Props.C48
